@@ -106,6 +106,27 @@ func init() {
 		sendEmitExpect(sp, "exp_quit", "Client.Quit")
 		sendEmitExpect(sp, "exp_starttls", "Client.StartTLS")
 
+		// dataCloser.Close reads the reply to the end of the mail data with ReadResponse (all lines of a multi-line
+		// reply), not with ReadCodeLine (first line only: the rest would be taken for the next command's reply)
+		full := false
+		if fn, ok := sp.funcs["dataCloser.Close"]; ok && fn.Body != nil {
+			ast.Inspect(fn.Body, func(x ast.Node) bool {
+				if ce, ok := x.(*ast.CallExpr); ok {
+					if se, ok := ce.Fun.(*ast.SelectorExpr); ok && se.Sel.Name == "ReadResponse" {
+						full = true
+					}
+					if se, ok := ce.Fun.(*ast.SelectorExpr); ok && (se.Sel.Name == "ReadCodeLine" || se.Sel.Name == "ReadLine") {
+						full = false
+						return false
+					}
+				}
+				return true
+			})
+		} else {
+			untranslatable = append(untranslatable, "eod_reads_full_response")
+		}
+		emit("(* smtp.go dataCloser.Close: the end-of-data reply is read with Text.ReadResponse *)\nDefinition eod_reads_full_response : bool := %v.\n", full)
+
 		// ehlo(): after the error check of the command the extension map is assigned unconditionally: the
 		// assignment "c.ext = <ident>" is a top-level statement of the body and no statement before it (other than
 		// the first "if err != nil { return err }") contains a return
